@@ -144,7 +144,10 @@ impl<'a> Packet<'a> {
         offset: &mut usize,
         items_count: u16,
     ) -> crate::Result<Vec<T>> {
-        let mut section_items = Vec::with_capacity(items_count as usize);
+        // every entry takes at least 5 bytes on the wire, do not let the header count alone
+        // drive the allocation
+        let max_items = data.len().saturating_sub(*offset) / 5;
+        let mut section_items = Vec::with_capacity((items_count as usize).min(max_items));
 
         for _ in 0..items_count {
             section_items.push(T::parse(data, offset)?);
